@@ -44,6 +44,7 @@
 #![allow(clippy::option_if_let_else)]
 #![warn(clippy::redundant_feature_names)]
 #![cfg_attr(coverage_nightly, feature(coverage_attribute))]
+#![cfg_attr(feature = "verif_hooks", allow(missing_docs, unreachable_pub, private_interfaces))]
 
 #[doc(hidden)]
 pub type HashMap<K, V> = std::collections::HashMap<K, V, rustc_hash::FxBuildHasher>;
@@ -146,6 +147,11 @@ mod value;
 mod value_type;
 mod version;
 mod vlog;
+
+#[cfg(feature = "verif_hooks")]
+#[doc(hidden)]
+#[allow(missing_docs, clippy::missing_panics_doc, clippy::must_use_candidate)]
+pub mod verif_api;
 
 /// User defined key (byte array)
 pub type UserKey = Slice;
